@@ -58,10 +58,18 @@ type injector struct {
 	failedB  map[string]bool
 	nWrites  int
 	nFailed  int
+	mgBad    bool        // the maglev invariant was seen violated after some single write of this apply
+	afterW   func() bool // evaluates the maglev invariant on the maps (true = holds)
 }
 
 func (in *injector) reset(mode int) {
-	*in = injector{mode: mode, failedF: map[string]bool{}, failedB: map[string]bool{}}
+	*in = injector{mode: mode, failedF: map[string]bool{}, failedB: map[string]bool{}, afterW: in.afterW}
+}
+
+func (in *injector) wrote() {
+	if in.afterW != nil && !in.afterW() {
+		in.mgBad = true
+	}
 }
 
 func (in *injector) shouldFail(k []byte) bool {
@@ -85,11 +93,21 @@ type recMap struct {
 	*mock.Map
 	in      *injector
 	backend bool
+	maglev  bool // the Maglev LUT map: recorded, never made to fail
 }
 
 var errInjected = errors.New("verif: injected write failure")
 
 func (m *recMap) Update(k, v []byte) error {
+	if m.maglev {
+		if err := m.Map.Update(k, v); err != nil {
+			return err
+		}
+		m.in.nWrites++
+		m.in.trace = append(m.in.trace, fmt.Sprintf("XSetM %s %s", coqMKey(k), coqBVal(v)))
+		m.in.wrote()
+		return nil
+	}
 	if m.in.shouldFail(k) {
 		m.in.nFailed++
 		if m.backend {
@@ -105,14 +123,27 @@ func (m *recMap) Update(k, v []byte) error {
 	m.in.done++
 	m.in.nWrites++
 	if m.backend {
-		m.in.trace = append(m.in.trace, fmt.Sprintf("WSetB %s %s", coqBKey(k), coqBVal(v)))
+		m.in.trace = append(m.in.trace, fmt.Sprintf("XW (WSetB %s %s)", coqBKey(k), coqBVal(v)))
 	} else {
-		m.in.trace = append(m.in.trace, fmt.Sprintf("WSetF %s %s", coqFKey(k), coqFVal(v)))
+		m.in.trace = append(m.in.trace, fmt.Sprintf("XW (WSetF %s %s)", coqFKey(k), coqFVal(v)))
 	}
+	m.in.wrote()
 	return nil
 }
 
 func (m *recMap) Delete(k []byte) error {
+	if m.maglev {
+		if !m.Map.ContainsKey(k) {
+			panic("verif: delete of a key that is not in the maglev map")
+		}
+		if err := m.Map.Delete(k); err != nil {
+			return err
+		}
+		m.in.nWrites++
+		m.in.trace = append(m.in.trace, fmt.Sprintf("XDelM %s", coqMKey(k)))
+		m.in.wrote()
+		return nil
+	}
 	if m.in.shouldFail(k) {
 		m.in.nFailed++
 		if m.backend {
@@ -131,10 +162,11 @@ func (m *recMap) Delete(k []byte) error {
 	m.in.done++
 	m.in.nWrites++
 	if m.backend {
-		m.in.trace = append(m.in.trace, fmt.Sprintf("WDelB %s", coqBKey(k)))
+		m.in.trace = append(m.in.trace, fmt.Sprintf("XW (WDelB %s)", coqBKey(k)))
 	} else {
-		m.in.trace = append(m.in.trace, fmt.Sprintf("WDelF %s", coqFKey(k)))
+		m.in.trace = append(m.in.trace, fmt.Sprintf("XW (WDelF %s)", coqFKey(k)))
 	}
+	m.in.wrote()
 	return nil
 }
 
@@ -171,6 +203,10 @@ func coqFVal(v []byte) string {
 func coqBKey(k []byte) string {
 	bk := nat.BackendKeyFromBytes(k)
 	return fmt.Sprintf("(%d,%d)", bk.ID(), bk.Count())
+}
+func coqMKey(k []byte) string {
+	mk := nat.MaglevBackendKeyFromBytes(k)
+	return fmt.Sprintf("(%d,%d)", mk.SvcID(), mk.Ordinal())
 }
 func coqBVal(v []byte) string {
 	bv := nat.BackendValueFromBytes(v)
@@ -316,7 +352,8 @@ type step struct {
 type world struct {
 	in         *injector
 	fe, be     *recMap
-	mg, aff    *mock.Map
+	mg         *recMap
+	aff        *mock.Map
 	rt         *proxy.RTCache
 	npips      []uint32
 	s          *proxy.Syncer
@@ -324,11 +361,12 @@ type world struct {
 }
 
 func newWorld(npips []uint32) *world {
-	w := &world{in: &injector{}, npips: npips, lutSize: 31}
+	w := &world{in: &injector{}, npips: npips, lutSize: 7}
 	w.in.reset(0)
 	w.fe = &recMap{Map: mock.NewMockMap(nat.FrontendMapParameters), in: w.in}
 	w.be = &recMap{Map: mock.NewMockMap(nat.BackendMapParameters), in: w.in, backend: true}
-	w.mg = mock.NewMockMap(nat.MaglevMapParameters)
+	w.mg = &recMap{Map: mock.NewMockMap(nat.MaglevMapParameters), in: w.in, maglev: true}
+	w.in.afterW = w.maglevInvariant
 	w.aff = mock.NewMockMap(nat.AffinityMapParameters)
 	w.rt = proxy.NewRTCache()
 	// endpoint addresses are 10.1.<n>.x: n = 0 local workloads, n = 1.. workloads on remote node n
@@ -420,6 +458,7 @@ type runInfo struct {
 	completedApplies  int
 	restarts          int
 	maxFe, maxBe      int
+	mgBad             bool
 	sample            []map[string]any
 }
 
@@ -443,6 +482,7 @@ func (w *world) run(steps []step) runInfo {
 		err := w.s.Apply(buildState(st.state, &rec))
 		ids := w.s.VerifNewSvcIDs()
 		ri.nWrites += w.in.nWrites
+		ri.mgBad = ri.mgBad || w.in.mgBad
 		ri.nFailed += w.in.nFailed
 		if err != nil {
 			ri.failedApplies++
@@ -468,6 +508,22 @@ func (w *world) run(steps []step) runInfo {
 	}
 	w.s.Stop()
 	return ri
+}
+
+// maglevInvariant: every frontend flagged maglev that has backends finds a complete LUT under its id.
+func (w *world) maglevInvariant() bool {
+	for _, v := range w.fe.Contents {
+		fv := nat.FrontendValueFromBytes([]byte(v))
+		if fv.Flags()&nat.NATFlgMaglev == 0 || fv.Count() == 0 {
+			continue
+		}
+		for j := 0; j < w.lutSize; j++ {
+			if !w.mg.Map.ContainsKey(nat.NewMaglevBackendKey(fv.ID(), uint32(j)).AsBytes()) {
+				return false
+			}
+		}
+	}
+	return true
 }
 
 // maglevObs: the Maglev LUT map as (id, number of entries, all values among the given addresses) rows;
@@ -755,7 +811,6 @@ type line struct {
 func emit(enc *json.Encoder, npips []uint32, steps []step, tags []string, reset bool) {
 	w := newWorld(npips)
 	ri := w.run(steps)
-	coq := fmt.Sprintf("(Case %s %s %d [%s])%%N", coqList(npips), coqBool(reset), w.lutSize, strings.Join(ri.ops, ";\n "))
 	var key []string
 	for _, sp := range steps {
 		key = append(key, fmt.Sprintf("%v|%s|%d|%d|%d|%d", sp.restart, coqState(sp.state), sp.failMode, sp.m, sp.r, sp.after))
@@ -764,10 +819,20 @@ func emit(enc *json.Encoder, npips []uint32, steps []step, tags []string, reset 
 		tags = append(tags, "has-failed-apply")
 	}
 	nt := ri.nWrites >= 10 && ri.completedApplies >= 1 && (ri.failedApplies >= 1 || ri.restarts >= 1 || ri.maxFe >= 4)
-	_ = enc.Encode(line{Coq: coq, NT: nt, Key: coqList(npips) + strings.Join(key, "/"),
-		Sample: map[string]any{"applies": ri.sample, "single_writes": ri.nWrites, "failed_writes": ri.nFailed,
-			"failed_applies": ri.failedApplies, "restarts": ri.restarts, "max_frontends": ri.maxFe, "max_backends": ri.maxBe},
-		Tags: tags})
+	sample := map[string]any{"applies": ri.sample, "single_writes": ri.nWrites, "failed_writes": ri.nFailed,
+		"failed_applies": ri.failedApplies, "restarts": ri.restarts, "max_frontends": ri.maxFe, "max_backends": ri.maxBe}
+	mk := func(mgcheck bool) string {
+		return fmt.Sprintf("(Case %s %s %d %s [%s])%%N", coqList(npips), coqBool(reset), w.lutSize, coqBool(mgcheck), strings.Join(ri.ops, ";\n "))
+	}
+	k := coqList(npips) + strings.Join(key, "/")
+	if ri.mgBad {
+		// The driver saw a maglev-flagged frontend without a complete LUT after some single write.  Emit the history
+		// twice: once with the maglev part of the oracle off (everything else must still hold) and once with it on.
+		_ = enc.Encode(line{Coq: mk(false), NT: nt, Key: k, Sample: sample, Tags: tags})
+		_ = enc.Encode(line{Coq: mk(true), NT: nt, Key: k + "|mg", Sample: sample, Tags: append(append([]string(nil), tags...), "maglev-midupdate")})
+		return
+	}
+	_ = enc.Encode(line{Coq: mk(true), NT: nt, Key: k, Sample: sample, Tags: tags})
 }
 
 func main() {
